@@ -202,6 +202,7 @@ class _BaseSCML(MahalanobisMixin):
     if isinstance(self.basis, np.ndarray):
       # TODO: should copy?
       basis = check_array(self.basis, copy=True)
+      n_basis = basis.shape[0]
       if basis.shape[1] != n_features:
         raise ValueError('The dimensionality ({}) of the provided bases must'
                          ' match the dimensionality of the data '
@@ -211,7 +212,7 @@ class _BaseSCML(MahalanobisMixin):
           "`basis` must be one of the options '{}' "
           "or an array of shape (n_basis, n_features)."
           .format("', '".join(self._authorized_basis)))
-    if self.basis == 'triplet_diffs':
+    elif self.basis == 'triplet_diffs':
       basis, n_basis = self._generate_bases_dist_diff(triplets, X)
 
     return basis, n_basis
